@@ -421,4 +421,274 @@ Section Order.
         eapply srt_insertion_sort_sorted. exact E.
       + apply srt_inv_ret in E. destruct E as [_ <-]. intros i j x y Hi Hij Hj. lia.
   Qed.
+
+  (* ---------------- heap sort *)
+  Definition srt_par (c : Z) : Z := (c - 1) / 2.
+
+  (* node c (relative to first) is not above its parent *)
+  Definition srt_hp (ks : list K) (first c : Z) : Prop :=
+    forall x y, srt_zget ks (first + c) = Some x -> srt_zget ks (first + srt_par c) = Some y -> srt_le x y.
+
+  Lemma srt_sift_down_heap first hi k : forall fuel r (s : ST) u s',
+    0 <= first -> 0 <= k <= r ->
+    (forall c, 0 < c < hi -> k <= srt_par c -> srt_par c <> r -> srt_hp (st_keys s) first c) ->
+    (forall c, 0 < c < hi -> srt_par c = r -> 0 < r -> k <= srt_par r ->
+       forall x y, srt_zget (st_keys s) (first + c) = Some x ->
+                   srt_zget (st_keys s) (first + srt_par r) = Some y -> srt_le x y) ->
+    srt_sift_down less fuel r hi first s = SOk (u, s') ->
+    forall c, 0 < c < hi -> k <= srt_par c -> srt_hp (st_keys s') first c.
+  Proof.
+    unfold srt_hp, srt_par.
+    induction fuel as [|f IH]; intros r s u s' Hfi Hkr HA HB E.
+    - cbn [srt_sift_down] in E. destruct (Z.leb_spec hi (2 * r + 1)) as [Hex|Hgo]; [|discriminate].
+      apply srt_inv_ret in E. destruct E as [_ <-]. intros c Hc Hk. apply HA; lia.
+    - cbn [srt_sift_down] in E. destruct (Z.leb_spec hi (2 * r + 1)) as [Hex|Hgo].
+      { apply srt_inv_ret in E. destruct E as [_ <-]. intros c Hc Hk. apply HA; lia. }
+      apply srt_inv_bind in E. destruct E as (ch & s1 & E1 & E).
+      (* choice of the larger child *)
+      assert (Hch : st_keys s1 = st_keys s /\ (ch = 2 * r + 1 \/ ch = 2 * r + 2) /\ ch < hi /\
+                    exists vch, srt_zget (st_keys s) (first + ch) = Some vch /\
+                      forall c v, 0 < c < hi -> (c - 1) / 2 = r ->
+                        srt_zget (st_keys s) (first + c) = Some v -> srt_le v vch).
+      { destruct (Z.ltb_spec (2 * r + 1 + 1) hi) as [H2|H2].
+        - apply srt_inv_bind in E1. destruct E1 as (t & s0 & E0 & E1).
+          apply srt_inv_less in E0. destruct E0 as (x & y & Hx & Hy & -> & Hk0 & _).
+          replace (first + (2 * r + 1) + 1) with (first + (2 * r + 1 + 1)) in Hy by lia.
+          apply srt_inv_ret in E1. destruct E1 as [<- <-]. split; [exact Hk0|].
+          destruct (less x y) eqn:Hxy.
+          + split; [lia|]. split; [lia|]. exists y. split; [exact Hy|].
+            intros c v Hc Hp Hv. assert (Hcc : c = 2 * r + 1 \/ c = 2 * r + 1 + 1) by lia.
+            destruct Hcc as [->| ->].
+            * rewrite Hx in Hv. injection Hv as <-. apply srt_lt_le. exact Hxy.
+            * rewrite Hy in Hv. injection Hv as <-. apply srt_le_refl.
+          + split; [lia|]. split; [lia|]. exists x. split; [exact Hx|].
+            intros c v Hc Hp Hv. assert (Hcc : c = 2 * r + 1 \/ c = 2 * r + 1 + 1) by lia.
+            destruct Hcc as [->| ->].
+            * rewrite Hx in Hv. injection Hv as <-. apply srt_le_refl.
+            * rewrite Hy in Hv. injection Hv as <-. exact Hxy.
+        - apply srt_inv_ret in E1. destruct E1 as [<- <-]. split; [reflexivity|].
+          split; [lia|]. split; [lia|].
+          destruct (srt_zget (st_keys s) (first + (2 * r + 1))) as [x|] eqn:Hx.
+          + exists x. split; [reflexivity|]. intros c v Hc Hp Hv.
+            assert (c = 2 * r + 1) by lia. subst c. rewrite Hx in Hv. injection Hv as <-. apply srt_le_refl.
+          + (* no such element: the following Less would have panicked *)
+            apply srt_inv_bind in E. destruct E as (t & s2 & E2 & _).
+            apply srt_inv_less in E2. destruct E2 as (x & y & _ & Hy & _). congruence. }
+      destruct Hch as (Hk1 & Hchv & Hchlt & vch & Hvch & Hmax).
+      apply srt_inv_bind in E. destruct E as (t & s2 & E2 & E).
+      apply srt_inv_less in E2. rewrite Hk1 in E2.
+      destruct E2 as (vr & vch' & Hvr & Hvch' & -> & Hk2 & _).
+      rewrite Hvch in Hvch'. injection Hvch' as <-.
+      destruct (less vr vch) eqn:Hlt; cbn [negb] in E.
+      + apply srt_inv_bind in E. destruct E as (u3 & s3 & E3 & E).
+        apply srt_inv_swap in E3. rewrite Hk2 in E3.
+        destruct E3 as (x' & y' & Hx' & Hy' & Hr3 & Hc3 & Hoth).
+        rewrite Hvr in Hx'. injection Hx' as <-. rewrite Hvch in Hy'. injection Hy' as <-.
+        apply srt_lt_le in Hlt.
+        assert (View : forall c v, srt_zget (st_keys s3) (first + c) = Some v ->
+                  (c = r /\ v = vch) \/ (c = ch /\ v = vr) \/
+                  (c <> r /\ c <> ch /\ srt_zget (st_keys s) (first + c) = Some v)).
+        { intros c v Hv. destruct (Z.eq_dec c r) as [->|N1]; [left; split; congruence|].
+          destruct (Z.eq_dec c ch) as [->|N2]; [right; left; split; congruence|].
+          right; right. rewrite <- Hoth by lia. auto. }
+        apply (IH ch s3 u s'); [exact Hfi|lia| | |exact E].
+        * intros c Hc Hk Hne x y Ex Ey.
+          apply View in Ex. apply View in Ey.
+          destruct Ex as [[-> ->]|[[-> ->]|(N1 & N2 & Ex)]].
+          -- (* c = r: its new value is the old larger child; compare with the parent of r *)
+             destruct Ey as [[? ?]|[[? ?]|(_ & _ & Ey)]]; [lia|lia|].
+             apply (HB ch); try lia. exact Hvch. exact Ey.
+          -- destruct Ey as [[? ->]|[[? ?]|(? & ? & Ey)]]; [exact Hlt|lia|lia].
+          -- destruct Ey as [[Hp ->]|[[? ?]|(? & ? & Ey)]]; [|lia|].
+             ++ apply (Hmax c x); [lia|lia|exact Ex].
+             ++ apply (HA c); try lia. exact Ex. exact Ey.
+        * intros c Hc Hp Hch0 Hk x y Ex Ey.
+          replace ((ch - 1) / 2) with r in Ey by lia.
+          apply View in Ex. apply View in Ey.
+          destruct Ex as [[? ?]|[[? ?]|(_ & _ & Ex)]]; [lia|lia|].
+          destruct Ey as [[_ ->]|[[? ?]|(? & _ & _)]]; [|lia|lia].
+          apply (HA c); try lia. exact Ex. rewrite Hp. exact Hvch.
+      + apply srt_inv_ret in E. destruct E as [_ <-]. rewrite Hk2.
+        assert (Hle : srt_le vch vr) by exact Hlt.
+        intros c Hc Hk. destruct (Z.eq_dec ((c - 1) / 2) r) as [Hp|Hp]; [|apply HA; lia].
+        intros x y Ex Ey. rewrite Hp in Ey. rewrite Hvr in Ey. injection Ey as <-.
+        apply srt_le_trans with vch; [|exact Hle]. apply (Hmax c x); [lia|exact Hp|exact Ex].
+  Qed.
+
+  Lemma srt_for_down_inv (Inv : Z -> ST -> Prop) (body : Z -> srt_M unit) n : forall (s : ST) u s',
+    (forall k s1 u1 s2, 0 <= k < Z.of_nat n -> Inv (k + 1) s1 -> body k s1 = SOk (u1, s2) -> Inv k s2) ->
+    Inv (Z.of_nat n) s -> srt_for_down n body s = SOk (u, s') -> Inv 0 s'.
+  Proof.
+    induction n as [|n IH]; intros s u s' Hb H0 E; cbn [srt_for_down] in E.
+    - apply srt_inv_ret in E. destruct E as [_ <-]. exact H0.
+    - apply srt_inv_bind in E. destruct E as (u1 & s1 & E1 & E).
+      apply (IH s1 u s'); [| |exact E].
+      + intros k sa ua sb Hk. apply Hb. lia.
+      + apply (Hb (Z.of_nat n) s u1 s1); [lia| |exact E1].
+        replace (Z.of_nat n + 1) with (Z.of_nat (S n)) by lia. exact H0.
+  Qed.
+
+  Definition srt_heap (ks : list K) (first hi k : Z) : Prop :=
+    forall c, 0 < c < hi -> k <= srt_par c -> srt_hp ks first c.
+
+  (* in a heap the root is a maximum *)
+  Lemma srt_heap_root_max ks first hi :
+    0 <= first -> first + hi <= Z.of_nat (length ks) -> srt_heap ks first hi 0 ->
+    forall c x y, 0 <= c < hi -> srt_zget ks (first + c) = Some x -> srt_zget ks first = Some y ->
+      srt_le x y.
+  Proof.
+    intros Hf Hlen Hh.
+    assert (G : forall n : nat, forall c x y, 0 <= c <= Z.of_nat n -> c < hi ->
+               srt_zget ks (first + c) = Some x -> srt_zget ks first = Some y -> srt_le x y).
+    { induction n as [|n IH]; intros c x y Hc Hch Ex Ey.
+      - assert (c = 0) by lia. subst c. rewrite Z.add_0_r in Ex. rewrite Ex in Ey.
+        injection Ey as <-. apply srt_le_refl.
+      - destruct (Z.eq_dec c 0) as [->|Hc0].
+        { rewrite Z.add_0_r in Ex. rewrite Ex in Ey. injection Ey as <-. apply srt_le_refl. }
+        destruct (srt_zget_some ks (first + srt_par c)) as [v Ev]; [unfold srt_par; lia|].
+        apply srt_le_trans with v.
+        + apply (Hh c); [lia|unfold srt_par; lia|exact Ex|exact Ev].
+        + apply (IH (srt_par c) v y); [unfold srt_par; lia|unfold srt_par; lia|exact Ev|exact Ey]. }
+    intros c x y Hc. apply (G (Z.to_nat c)); lia.
+  Qed.
+
+  (* frame of one siftDown call made by heapSort (fuel = total segment size) *)
+  Lemma srt_sift_down_frame first n root h (s : ST) u s' :
+    0 <= first -> 0 <= root -> 0 <= h <= n -> srt_wf (first + n) s ->
+    srt_sift_down less (Z.to_nat n) root h first s = SOk (u, s') ->
+    srt_frame first (first + h) s s' /\ srt_wf (first + n) s'.
+  Proof.
+    intros Hf Hr Hh Hw E.
+    set (kk := Z.to_nat (Z.log2 n)).
+    assert (Hn : 0 <= n) by lia.
+    assert (Hkk : Z.of_nat kk = Z.log2 n) by (unfold kk; pose proof (Z.log2_nonneg n); lia).
+    assert (Hpow : n < 2 ^ (Z.of_nat kk + 1)) by (rewrite Hkk; apply srt_log2_pow; exact Hn).
+    assert (HP0 : 0 < 2 ^ (Z.of_nat kk + 1)) by (apply Z.pow_pos_nonneg; lia).
+    assert (Hfuel : (kk <= Z.to_nat n)%nat) by (pose proof (Z.log2_le_lin n Hn); lia).
+    assert (Hwh : srt_wf (first + h) s) by (eapply srt_wf_le; [|exact Hw]; lia).
+    destruct (srt_spec_elim first (first + h) _ _ s u s'
+                (srt_spec_sift_down less first (first + h) h first kk (Z.to_nat n) root
+                   Hfuel Hf Hr ltac:(nia) ltac:(lia) ltac:(lia)) Hwh E) as (F & _ & _).
+    split; [exact F|]. eapply srt_wf_frame; eassumption.
+  Qed.
+
+  Lemma srt_heap_sort_sorted : srt_heapsort_ok.
+  Proof.
+    intros a b s u s' Ha Hab Hw E. unfold srt_heap_sort in E.
+    set (n := b - a) in *.
+    assert (Hn : 0 <= n) by (unfold n; lia).
+    replace b with (a + n) in Hw |- * by (unfold n; lia).
+    apply srt_inv_bind in E. destruct E as (u1 & s1 & E1 & E).
+    (* phase 1: build the heap *)
+    assert (P1 : srt_wf (a + n) s1 /\ srt_heap (st_keys s1) a n 0).
+    { apply (srt_for_down_inv (fun k st => srt_wf (a + n) st /\ srt_heap (st_keys st) a n k)) in E1.
+      - exact E1.
+      - intros k sa ua sb Hk [Hwa Hha] Eb.
+        destruct (srt_sift_down_frame a n k n sa ua sb Ha ltac:(lia) ltac:(lia) Hwa Eb) as [_ Hwb].
+        split; [exact Hwb|].
+        intros c Hc Hkc. apply (srt_sift_down_heap a n k (Z.to_nat n) k sa ua sb Ha ltac:(lia)); try assumption.
+        + intros c0 Hc0 Hk0 Hne. apply Hha; [exact Hc0|lia].
+        + unfold srt_par. intros c0 Hc0 Hp Hk0 Hk1. lia.
+      - split; [exact Hw|]. intros c Hc Hk. exfalso. unfold srt_par in Hk.
+        destruct (Z.le_gt_cases n 1); [lia|].
+        rewrite Z.quot_div_nonneg in Hk by lia. lia. }
+    destruct P1 as [Hw1 Hh1].
+    (* phase 2: repeatedly move the maximum behind the heap *)
+    apply (srt_for_down_inv (fun k st =>
+             srt_wf (a + n) st /\ srt_heap (st_keys st) a k 0 /\
+             srt_sorted_on (st_keys st) (a + k) (a + n) /\
+             (forall p q x y, a <= p < a + k -> a + k <= q < a + n ->
+                srt_zget (st_keys st) p = Some x -> srt_zget (st_keys st) q = Some y -> srt_le x y))) in E.
+    - destruct E as (_ & _ & S0 & _). replace (a + 0) with a in S0 by lia. exact S0.
+    - intros k sa ua sb Hk (Hwa & Hha & Hsa & Hca) Eb.
+      apply srt_inv_bind in Eb. destruct Eb as (u2 & sm & Esw & Esd).
+      destruct (srt_spec_elim a (a + n) _ _ sa u2 sm
+                  (srt_spec_swap a (a + n) a (a + k) Ha ltac:(lia) ltac:(lia)) Hwa Esw) as (_ & Hwm & _).
+      apply srt_inv_swap in Esw.
+      destruct Esw as (vx & vy & Hvx & Hvy & Hm1 & Hm2 & Hoth).
+      destruct (srt_sift_down_frame a n 0 k sm ua sb Ha ltac:(lia) ltac:(lia) Hwm Esd) as [Fd Hwb].
+      assert (Hlen : a + (k + 1) <= Z.of_nat (length (st_keys sa))) by (destruct Hwa; lia).
+      assert (RM : forall c x, 0 <= c < k + 1 -> srt_zget (st_keys sa) (a + c) = Some x -> srt_le x vx).
+      { intros c x Hc Ex. apply (srt_heap_root_max (st_keys sa) a (k + 1) Ha Hlen Hha c x vx Hc Ex Hvx). }
+      (* view of the array after the swap *)
+      assert (View : forall p v, srt_zget (st_keys sm) p = Some v ->
+                (p = a + k /\ v = vx) \/ ((p = a /\ k <> 0) /\ v = vy) \/
+                (p <> a /\ p <> a + k /\ srt_zget (st_keys sa) p = Some v)).
+      { intros p v Hv. destruct (Z.eq_dec p (a + k)) as [->|N1]; [left; split; congruence|].
+        destruct (Z.eq_dec p a) as [->|N2]; [right; left; split; [lia|congruence]|].
+        right; right. rewrite <- Hoth by assumption. auto. }
+      split; [exact Hwb|]. split; [|split].
+      + intros c Hc Hkc. apply (srt_sift_down_heap a k 0 (Z.to_nat n) 0 sm ua sb Ha ltac:(lia)); try assumption.
+        * intros c0 Hc0 Hk0 Hne x y Ex Ey. unfold srt_par in *.
+          apply View in Ex. apply View in Ey.
+          destruct Ex as [[? ?]|[[? ?]|(_ & _ & Ex)]]; [lia|lia|].
+          destruct Ey as [[? ?]|[[? ?]|(_ & _ & Ey)]]; [lia|lia|].
+          apply (Hha c0); [lia|unfold srt_par; lia|exact Ex|exact Ey].
+        * intros c0 Hc0 Hp Hr0. lia.
+      + intros p q x y Hp Hpq Hq Ex Ey.
+        rewrite (fr_outk _ _ _ _ Fd) in Ex by lia. rewrite (fr_outk _ _ _ _ Fd) in Ey by lia.
+        apply View in Ex. apply View in Ey.
+        destruct Ey as [[? ?]|[[? ?]|(_ & _ & Ey)]]; [lia|lia|].
+        destruct Ex as [[? ->]|[[? ?]|(? & ? & Ex)]]; [|lia|].
+        * apply (Hca a q); [lia|lia|exact Hvx|exact Ey].
+        * apply (Hsa p q); [lia|lia|lia|exact Ex|exact Ey].
+      + intros p q x y Hp Hq Ex Ey.
+        rewrite (fr_outk _ _ _ _ Fd) in Ey by lia.
+        assert (AO : srt_all_on (fun z => srt_le z y) (st_keys sm) a (a + k)).
+        { intros p0 z Hp0 Ez. apply View in Ez. apply View in Ey.
+          destruct Ey as [[_ ->]|[[? ?]|(? & ? & Ey)]]; [|lia|].
+          - destruct Ez as [[? ?]|[[_ ->]|(_ & _ & Ez)]]; [lia| |].
+            + apply (RM k); [lia|exact Hvy].
+            + apply (RM (p0 - a)); [lia|]. replace (a + (p0 - a)) with p0 by lia. exact Ez.
+          - destruct Ez as [[? ?]|[[_ ->]|(_ & _ & Ez)]]; [lia| |].
+            + apply (Hca (a + k) q); [lia|lia|exact Hvy|exact Ey].
+            + apply (Hca p0 q); [lia|lia|exact Ez|exact Ey]. }
+        assert (Hwmk : srt_wf (a + k) sm) by (eapply srt_wf_le; [|exact Hwm]; lia).
+        apply (srt_all_on_frame _ a (a + k) sm sb ltac:(lia) Hwmk Fd AO p x); [lia|exact Ex].
+    - rewrite Z2Nat.id by lia. split; [exact Hw1|]. split; [exact Hh1|]. split.
+      + intros i j x y Hi Hij Hj. lia.
+      + intros p q x y Hp Hq. lia.
+  Qed.
+
+  (* ---------------- SliceBy *)
+  Lemma srt_sorted_strongly (R : K -> K -> Prop) (l : list K) :
+    (forall i j x y, (i < j)%nat -> nth_error l i = Some x -> nth_error l j = Some y -> R x y) ->
+    StronglySorted R l.
+  Proof.
+    induction l as [|x l IH]; intros H; [constructor|]. constructor.
+    - apply IH. intros i j a b Hij Ha Hb. apply (H (S i) (S j)); [lia|exact Ha|exact Hb].
+    - apply Forall_forall. intros y Hy. apply In_nth_error in Hy. destruct Hy as [j Hj].
+      apply (H O (S j)); [lia|reflexivity|exact Hj].
+  Qed.
+
+  Lemma srt_sorted_on_strongly (ks : list K) (n : nat) :
+    srt_sorted_on ks 0 (Z.of_nat n) -> StronglySorted srt_le (firstn n ks).
+  Proof.
+    intros H. apply srt_sorted_strongly. intros i j x y Hij Ex Ey.
+    assert (Hj : (j < n)%nat).
+    { assert (j < length (firstn n ks))%nat by (apply nth_error_Some; congruence).
+      rewrite firstn_length in *. lia. }
+    rewrite nth_error_firstn in Ex by lia. rewrite nth_error_firstn in Ey by lia.
+    apply (H (Z.of_nat i) (Z.of_nat j)); try lia; rewrite srt_zget_nat by lia; rewrite Nat2Z.id; assumption.
+  Qed.
+
+  (* sortedness of SliceBy's result, given the three-zone postcondition of doPivot *)
+  Lemma sliceby_sorted_given_partition (keys : list K) (vals : list V) s' :
+    srt_partition_ok ->
+    srt_sliceby less keys vals = SOk s' ->
+    StronglySorted srt_le (firstn (Nat.min (length keys) (length vals)) (st_keys s')).
+  Proof.
+    intros HP E. apply srt_sorted_on_strongly.
+    unfold srt_sliceby, srt_sliceby_fuel in E.
+    set (n := Z.min (Z.of_nat (length keys)) (Z.of_nat (length vals))) in *.
+    replace (Z.of_nat (Nat.min (length keys) (length vals))) with n by (unfold n; lia).
+    destruct (Z.leb_spec n 1) as [H1|H1].
+    - injection E as <-. intros i j x y Hi Hij Hj. lia.
+    - destruct (srt_quick_sort less (S (srt_max_depth n)) 0 n (srt_max_depth n) (srt_init keys vals))
+        as [[u s1]| |] eqn:Eq; try discriminate.
+      injection E as <-.
+      apply (srt_quick_sort_sorted HP srt_heap_sort_sorted (S (srt_max_depth n)) (srt_max_depth n) 0 n (srt_init keys vals) u s1); try lia.
+      + unfold srt_wf, srt_init, n. cbn [st_keys st_vals]. lia.
+      + exact Eq.
+  Qed.
 End Order.
